@@ -45,7 +45,7 @@ func litStores(al ssa.Value) map[string][]ssa.Value {
 				st := derefStruct(x.X.Type())
 				name := fmt.Sprintf("#%d", x.Field)
 				if st != nil {
-					name = st.Field(x.Field).Name()
+					name = fieldLabel(x.X.Type(), x.Field)
 				}
 				p := name
 				if prefix != "" {
